@@ -15,7 +15,8 @@
 (***************************************************************************)
 EXTENDS Integers, Sequences, FiniteSets, TLC, Json, IOUtils
 CONSTANT DIAG
-VARIABLES l, comms, par, q, ackSelf, ackKids, job, inSearch, search, bestCnt, nGo, nBest, nDone, mainJob, quitting, sess
+VARIABLES l, comms, par, q, ackSelf, ackKids, job, inSearch, search, bestCnt, nGo, nBest, nDone, mainJob, quitting, sess,
+          pend     \* result provenance: thread -> job id for which the result it is about to send was computed (event ResultFor)
 \* sess = [inDo, ready, outs]: E inside doSearch, isready awaiting readyok, bestmove lines printed (C05 session contract)
 Tr == ndJsonDeserialize(IOEnv.TRACE)
 Chk(name, cond, info) == IF cond THEN TRUE ELSE (DIAG /\ PrintT(<<"MISMATCH", name, l, info>>))
@@ -57,6 +58,9 @@ TSend ==
    /\ Ev("Send")
    /\ LET o == Tr[l].o  c == <<Tr[l].a, Tr[l].b>> IN
       /\ Chk("Design:SendToKnownMailbox", o \in comms, o)
+      \* a search result travels upwards under the job id it was computed for, whether sent by the searching thread itself or relayed
+      /\ (c[1] = RESULT) => Chk("ResultKeepsTheJobItWasComputedFor", Tr[l].t \in DOMAIN pend /\ pend[Tr[l].t] = c[2],
+                                 <<"thread", Tr[l].t, "sent as job", c[2], "computed for", IF Tr[l].t \in DOMAIN pend THEN pend[Tr[l].t] ELSE -99>>)
       /\ q' = IF o \in comms THEN [q EXCEPT ![o] = Append(IF c[1] \in {START, STOP} THEN Purge(@) ELSE @, c)] ELSE q
    /\ Un(<<comms, par, ackSelf, ackKids, job, inSearch, search, bestCnt, nGo, nBest, nDone, mainJob, quitting, sess>>)
 
@@ -156,8 +160,11 @@ TReset == /\ Ev("Reset") /\ comms' = {} /\ par' = <<>> /\ q' = <<>> /\ ackSelf' 
 
 TInit == /\ l = 1 /\ comms = {} /\ par = <<>> /\ q = <<>> /\ ackSelf = <<>> /\ ackKids = <<>> /\ job = <<>> /\ inSearch = <<>>
          /\ search = FALSE /\ bestCnt = 0 /\ nGo = 0 /\ nBest = 0 /\ nDone = 0 /\ mainJob = 0 /\ quitting = FALSE
-         /\ sess = [inDo |-> FALSE, ready |-> 0, outs |-> 0]
-TNext == TReg \/ TSend \/ TRecv \/ TStopSent \/ TStopAckCall \/ TWJob \/ TWSearch \/ TGo \/ TBest \/ TDone \/ TNewJob \/ TResultSeen
+         /\ sess = [inDo |-> FALSE, ready |-> 0, outs |-> 0] /\ pend = <<>>
+TResultFor == /\ Ev("ResultFor") /\ Un(vars)
+TNext0 == TResultFor \/ TReg \/ TSend \/ TRecv \/ TStopSent \/ TStopAckCall \/ TWJob \/ TWSearch \/ TGo \/ TBest \/ TDone \/ TNewJob \/ TResultSeen
          \/ TQuit \/ TOther \/ TEnd \/ TReset \/ TUnreg \/ TCmd \/ TReadyOk \/ TInfo \/ TBestOut \/ TDoSearch \/ TParamSet
+TNext == /\ TNext0
+         /\ pend' = IF Tr[l].e = "ResultFor" THEN Put(pend, Tr[l].t, Tr[l].a) ELSE IF Tr[l].e = "Reset" THEN <<>> ELSE pend
 Accepted == TLCGet("stats").diameter - 1 = Len(Tr) \/ (PrintT(<<"REJECTED_AT", TLCGet("stats").diameter>>) /\ FALSE)
 =============================================================================
